@@ -249,13 +249,11 @@ Section AlgebraProofs.
 End AlgebraProofs.
 
 (* ================================================================== Part 3: call sites (generated table) *)
-(* every call site outside _evolve_tdvp_mu_cmf passes the Hermitian effective Hamiltonian and carries the
-   imaginary unit / the caller's coefficient in dt.  (Finite domain: the generated table; vm_compute.) *)
-Lemma sites_hermitian_excl_cmf_b : forallb site_ok (filter (fun s => negb (is_cmf s)) sites) = true.
+(* every call site passes a Hermitian operator: the effective Hamiltonian built by hop_expr*, or that operator
+   divided by a real coefficient, or (H_eff/c)*c with the cancellation verified and 1/c moved into dt.
+   (Finite domain: the generated table; vm_compute.) *)
+Lemma sites_hermitian_b : forallb site_ok sites = true.
 Proof. vm_compute. reflexivity. Qed.
 
-Lemma sites_hermitian_excl_cmf : forall s, In s sites -> is_cmf s = false -> site_ok s = true.
-Proof.
-  intros s Hs Hc. pose proof sites_hermitian_excl_cmf_b as H. rewrite forallb_forall in H.
-  apply H. apply filter_In. split; [exact Hs | rewrite Hc; reflexivity].
-Qed.
+Lemma sites_hermitian : forall s, In s sites -> site_ok s = true.
+Proof. intros s Hs. pose proof sites_hermitian_b as H. rewrite forallb_forall in H. apply H. exact Hs. Qed.
